@@ -433,6 +433,8 @@ def _run_op(hist, op, idx, *, tape=None, uberjob_kwargs=None, client_wrap=None, 
         rt.on_death = lambda: setattr(fs_plan, "dead", True)
         fs.install(fs_plan)
     shims.install(gran=sc.get("gran", "opcode"))
+    if kwargs.get("max_workers") is None:
+        shims.patch_cpu_count(cfg.get("cpu_count", 1))
     try:
         rec.result, rec.exc = sim.run(body)
     finally:
